@@ -6,6 +6,7 @@ import (
 	"go/token"
 	"go/types"
 	"math/bits"
+	"morlockverif/checker/internal/core"
 	"sort"
 	"strings"
 
@@ -261,7 +262,7 @@ func c06Tables(e *c06env) {
 		stt := rs.T.Underlying().(*types.Struct)
 		for i := 0; i < stt.NumFields(); i++ {
 			s := vstrOf(rs.F[i])
-			name := stt.Field(i).Name()
+			name := core.FieldName(stt.Field(i))
 			switch {
 			case strings.Contains(s, "<<(1,sq)"):
 				e.viewTable[name] = "identity"
@@ -500,8 +501,12 @@ func c06Rays(e *c06env) {
 				// bound = mask table[sq] (inclusive): must be the same mask the reader applies
 				be := pathExpr(stIV.Bound)
 				maskTab := ""
-				if strings.HasPrefix(be, "global:") && strings.HasSuffix(be, "[phi:sq]") {
-					maskTab = strings.TrimSuffix(strings.TrimPrefix(be, "global:"), "[phi:sq]")
+				if ld, ok := stripConv(stIV.Bound).(*ssa.UnOp); ok && ld.Op == token.MUL {
+					if ia, ok := ld.X.(*ssa.IndexAddr); ok && stripConv(ia.Index) == ssa.Value(ti.sqPhi) {
+						if g, ok := ia.X.(*ssa.Global); ok {
+							maskTab = g.Name()
+						}
+					}
 				}
 				vals, _, okL := litElems(c.P, "pkg/board", maskTab)
 				if !okL || len(vals) != 64 {
@@ -540,7 +545,21 @@ func c06Rays(e *c06env) {
 				ti.sqPhi:   absint.MkInt(int64(sq), ti.sqPhi.Type()),
 				ti.statePh: absint.NewSym(ti.statePh.Type(), "state"),
 			}
-			outs := e.in.RunFrom(ti.fn, body, header, env, map[*ssa.BasicBlock]bool{header: true}, absint.NewState())
+			// whatever is computed once per square, between the square loop's header and the state
+			// loop (hoisted sub-expressions), is evaluated first and carried into the body
+			st0 := absint.NewState()
+			if sqHeader := ti.sqPhi.Block(); len(sqHeader.Succs) == 2 && sqHeader.Succs[0] != header && sqHeader != header {
+				pre := e.in.RunFrom(ti.fn, sqHeader.Succs[0], sqHeader, map[ssa.Value]absint.Value{ti.sqPhi: env[ti.sqPhi]}, map[*ssa.BasicBlock]bool{header: true}, absint.NewState())
+				if len(pre) == 1 && pre[0].Stopped == header && !pre[0].Undecided() {
+					for k2, v2 := range pre[0].Env {
+						if _, have := env[k2]; !have {
+							env[k2] = v2
+						}
+					}
+					st0 = pre[0].St
+				}
+			}
+			outs := e.in.RunFrom(ti.fn, body, header, env, map[*ssa.BasicBlock]bool{header: true}, st0)
 			bad, und := "", ""
 			if len(outs) == 0 {
 				bad = "no path through the loop body"
@@ -823,8 +842,8 @@ func c06Dispatch(e *c06env) {
 			for _, p := range []string{"Rook", "Bishop"} {
 				_ = p
 			}
-			rookFn := c.P.Func("pkg/board", "", "RookAttackboard")
-			bishFn := c.P.Func("pkg/board", "", "BishopAttackboard")
+			rookFn := c.find("pkg/board", "", "RookAttackboard")
+			bishFn := c.find("pkg/board", "", "BishopAttackboard")
 			for _, fn := range []*ssa.Function{rookFn, bishFn} {
 				o := e.in.Run(fn, []absint.Value{bb, sq}, absint.NewState())
 				if len(o) == 1 {
